@@ -20,4 +20,11 @@ AllOps == {"Create", "ObjSet", "ObjGet", "ArrPush", "ArrGet", "ArrPop", "ArrClea
 ScalarOps == {"Create", "ObjSet", "ObjGet", "ArrPush", "ArrGet", "Construct", "Echo", "Free"}
 AllToks == {"MIN", "M1", "ZERO", "ONE", "MAX"}
 NoToks == {}
+NoPaths == {}
+PathKeysAll == {<<"a">>, <<"a", "b">>, <<"a", "b", "c">>, <<"a", "a">>}
+PathKeysSim == {<<"a", "b">>, <<"b", "a">>, <<"a", "b", "a">>}
+PathOps == {"Create", "PathSet", "PathGet", "PathHas"}
+SimOps == AllOps \cup {"PathSet", "PathGet", "PathHas"}
+PathVals == {Sc("i64", "MIN"), Sc("string", "S")}
+PathDflts == {Sc("u32", "MAX"), Sc("f64", "FRAC"), Sc("string", "ESC"), Null}
 =========================================================================
